@@ -14,7 +14,7 @@ import (
 func TestECDSAP256AgainstStdlib(t *testing.T) {
 	d := newDRBG("ecdsa-p256")
 	c := P256()
-	for i := 0; i < 40; i++ {
+	for i := 0; i < 16; i++ {
 		sk := new(big.Int).Add(d.below(new(big.Int).Sub(c.N, bigOne)), bigOne)
 		q := c.ScalarBaseMul(sk)
 		priv, err := ecdsa.ParseRawPrivateKey(elliptic.P256(), sk.FillBytes(make([]byte, 32)))
